@@ -38,6 +38,10 @@ CheckCall(e, c) ==
      \* evaluation_info (function index 0) is routed by the same labels
      ELSE IF \E i \in 1..Len(e.values) : LET x == e.values[i] IN x.f = 0 /\ ~ObsEqInt(x.val, Code(0, x.b, x.r, x.p, 0))
           THEN "evaluation_info_not_from_labelled_row"
+     \* the per-realization summary flag (context.active): inactive iff every function of that realization is inactive
+     ELSE IF Len(e.summary) > 0 /\ Len(e.active) > 0 /\ (\E r \in 1..R : e.summary[r] # (\E f \in 1..3 : e.active[f][r]))
+          THEN "realization_summary_flag_differs_from_per_function_flags"
+     ELSE IF (Len(e.summary) > 0) # (Len(e.active) > 0) THEN "realization_summary_flag_differs_from_per_function_flags"
      \* inactive only if the weight in force is zero
      ELSE IF \E f \in 1..3 : \E r \in 1..R : inactive(f, r) /\ ~e.weights[f][r].zero THEN "inactive_entry_has_weight"
      \* split gradient: every zero-weight entry is flagged inactive
